@@ -1,7 +1,7 @@
 (* C01 — Chronological execution.  Statements only (proofs in Proofs/Sim*.v).
    Model: Model/Sim.v with the bug switches off (the repaired tree). *)
 Require Import NX.Base.Prelude NX.Base.ListX NX.Model.PQ NX.Model.Sim.
-Require Import NX.Proofs.SimBasic NX.Proofs.SimDriver NX.Proofs.SimQueue NX.Proofs.SimTop.
+Require Import NX.Proofs.SimBasic NX.Proofs.SimDriver NX.Proofs.SimQueue NX.Proofs.SimTop NX.Proofs.SimTerm.
 
 (* One command, any bench, any schedule (choice list), any reachable state that
    satisfies the queue invariant: the invariant "every pending action is due
@@ -61,6 +61,19 @@ Theorem c01_run_keeps_time :
   forall b fuel ch s nd s' nd', net_run b fuel ch s nd = Some (s', nd') -> frame_eq s s'.
 Proof. exact net_run_frame. Qed.
 Print Assumptions c01_run_keeps_time.
+
+(* Unconditional form, from SimInit::init on, for every bench, every driver
+   sequence and every schedule: init and every command return (no RHang), every
+   state reached satisfies both queue invariants (all pending actions strictly
+   in the future, positive periods, unique epochs), and the times never decrease. *)
+Theorem c01_all_reachable_states :
+  forall b fuel ich cs s0 r0 nd0,
+    bugF4 b = false -> sim_init b fuel ich = (s0, r0, nd0) ->
+    r0 <> RHang /\ q_inv s0 /\ qwf s0 /\ now s0 = bt0 b /\
+    (forall p, In p (states_of b fuel s0 cs) -> q_inv (fst p) /\ qwf (fst p) /\ snd p <> RHang) /\
+    nondecreasing (bt0 b) (map (fun p => now (fst p)) (states_of b fuel s0 cs)).
+Proof. exact sim_all. Qed.
+Print Assumptions c01_all_reachable_states.
 
 (* non-vacuity: a bench with a self-scheduling model, a periodic event and a
    cancelled one, driven by step / step_until *)
